@@ -1,9 +1,48 @@
 # What is claimed per property (kept next to mkmanifest.py).
+# "text": what the check proves; "note": what it does not decide. Both are copied
+# into MANIFEST.json. Keep them in step with the contracts tagged `property Cxx`
+# in /repo's zz_verif_*.go files (the evidence file lists the functions and modes
+# actually verified on each run).
 CLAIMS = {
+    "C01": {
+        "text": "Proof, for all byte strings and unbounded length, that every lexical recogniser of the decoder equals an independent specification: ConsumeWhitespace, ConsumeNull/False/True/Literal, ConsumeSimpleString, ConsumeStringResumable/ConsumeString (against the string-unit scanner spec strScanFrom: escapes, UTF-8 well-formedness per Unicode Table 3-7, surrogate pairing, which offset and error class is reported), ConsumeSimpleNumber, ConsumeNumberResumable/ConsumeNumber (against the RFC 8259 section 6 automaton numStep: maximal munch, accept iff accepting state, EOF iff live non-accepting), parseHexUint16, hasEscapedUTF16Prefix; and that the push-down automaton stateMachine (appendLiteral/String/Number, push/pop Object/Array) accepts exactly the legal next token kinds, enforces name-must-be-string, matching delimiters and the 10000 depth limit exactly, and leaves its state untouched on error. Loops are cut by inductive invariants; obligations are discharged by z3/cvc5.",
+        "note": "Decided here: the lexical layer and the token-kind automaton, which every entry point (IsValid, ReadToken, ReadValue) is built from. Not decided by proof: the composition in decoderState.ReadToken/ReadValue/consumeValue/consumeObject/consumeArray (thin safety/depth contracts only where listed in the evidence), objectNamespace.insert (duplicate names; map-based), the stream-concatenation clause, and json.Unmarshal into any.",
+        "ref": "DESIGN.md §3 C01",
+    },
+    "C05": {
+        "text": "Proof that the resumable scanners are chunking-independent: ConsumeStringResumable called with any resumeOffset produced by an earlier truncated call returns what a fresh scan of the whole buffer returns (same end, same error class, same flags monotonicity), every io.ErrUnexpectedEOF return yields a resume offset at a unit boundary, ConsumeNumberResumable's (resumeOffset, state) pair denotes the automaton state reached by a fresh scan, and hasEscapedUTF16Prefix accepts exactly the prefixes of \\uXXXX (low-surrogate-restricted when asked). Plus, where listed in the evidence, the decoder's buffer algebra (decodeBuffer offsets, fetch, consume* re-anchoring).",
+        "note": "Decided here: the places where a token split across reads is re-assembled (surrogate pairs, exponent markers, truncated escapes). Not decided by proof: interleavings of ReadToken/ReadValue/PeekKind with the peek cache, transient reader faults, the bytes.Buffer specialisation, UnmarshalRead/UnmarshalDecode equivalence (arshal layer).",
+        "ref": "DESIGN.md §3 C05",
+    },
+    "C06": {
+        "text": "Proof that the encoder's grammar automaton rejects exactly the illegal calls and that a rejected call has no effect on it: for every stateMachine operation, error iff the token kind is not legal in the current state (name position, missing value, mismatched or virtual-top pop, invalid namespace, depth 10000 exceeded), error implies Stack and Last unchanged, success implies exactly one automaton step with all other stack entries unchanged; stateEntry predicates equal their bit-level view; needDelim emits ':' / ',' / nothing exactly per position.",
+        "note": "Decided here: the state machine every Encoder.WriteToken/WriteValue call consults first, and the delimiter choice. Not decided by proof unless listed in the evidence: the commit protocol of encoderState.WriteToken/AppendRaw/WriteValue around it (buffer truncation on error), reformatValue/Object/Array, objectNamespace.insert.",
+        "ref": "DESIGN.md §3 C06",
+    },
+    "C08": {
+        "text": "Proof of the detection primitives: ConsumeString/ConsumeStringResumable with validateUTF8 report an error iff the body contains an ill-formed UTF-8 sequence or an unpaired surrogate escape (utf8-iff obligations against the Unicode Table 3-7 spec); AppendQuote returns ErrInvalidUTF8 iff the input is ill-formed and AllowInvalidUTF8 is unset and otherwise replaces each ill-formed byte by exactly one U+FFFD; the namespace bits of stateEntry (DisableNamespace, invalidateNamespace, isActiveNamespace, isValidNamespace, Increment, decrement) do not interfere with each other, the type bit or the count; the state machine refuses every token once a namespace is invalid; and, where listed in the evidence, uintSet.insert (struct-field duplicate detection).",
+        "note": "Not decided by proof: objectNamespace.insert/removeLast (hash-map based), that each target type re-implements duplicate detection after DisableNamespace (reflection), later-member-wins semantics under AllowDuplicateNames.",
+        "ref": "DESIGN.md §3 C08",
+    },
+    "C10": {
+        "text": "Proof that integer literals are parsed exactly: ParseUint returns the mathematical value of the digit string for every input length (unbounded), reports overflow precisely at 2^64 (saturating to MaxUint64) and rejects exactly the non-literals (empty, leading zero, non-digit); ConsumeNumber/ConsumeSimpleNumber/ConsumeNumberResumable delimit exactly the RFC 8259 number grammar. Where listed in the evidence: the integer codecs of arshal_time.go.",
+        "note": "Not decided: float formatting/parsing (strconv assumed; floats are opaque to the solver), the int/uint arshaler closures' range checks (reflection closures), Token.Int/Uint float paths.",
+        "ref": "DESIGN.md §3 C10",
+    },
+    "C11": {
+        "text": "Proof that AppendQuote equals the escaping specification quoteSpec for every input and every combination of EscapeForHTML/EscapeForJS/AllowInvalidUTF8: output is dst ++ '\"' ++ spelling ++ '\"' where each ASCII byte that must be escaped becomes its shortest escape (two-character form where RFC 8259 has one, lower-case \\u00xx otherwise), other well-formed sequences are copied, U+2028/9 are escaped under EscapeForJS, '<' '>' '&' under EscapeForHTML, each ill-formed byte becomes one U+FFFD; dst's prefix and src are unchanged. NeedEscape(src) is exactly 'some unit needs escaping under some option or is ill-formed'. appendEscapedASCII/UTF16/Unicode emit the exact bytes. ConsumeStringResumable's canonical/verbatim flags are exact (used to decide when a string may be copied through unchanged).",
+        "note": "Not decided by proof unless listed in the evidence: AppendUnquote and the round-trip lemma, ReformatString's three branches, that no other path writes strings to the output (arshal layer, pre-quoted struct names).",
+        "ref": "DESIGN.md §3 C11",
+    },
     "C19": {
         "text": "Proof, for all 64-bit flag words, that Flags.Join/Set/Get/Has/Clear implement a last-wins partial map over option bit positions (Set = Join of the Bools' denotation, Join associative, per-position last-wins reading, well-formedness preserved, DefaultOptionsV2-style flags cancel every v1 default). Loop-free bit-vector obligations, all inputs.",
         "note": "Decided here: the boolean-option algebra every JoinOptions/GetOption call reduces to. Not decided: Struct.Join's non-boolean slots, GetOption's type switch, MarshalEncode's save/restore, and the non-interference clause (options documented as irrelevant never change a result), which lives in reflection code.",
         "ref": "DESIGN.md §3 C19, Appendix A.1",
+    },
+    "C20": {
+        "text": "Proof of panic-freedom and of the resource limits for every function under contract (the union of all other properties' functions): each index and slice expression in bounds, no nil dereference, no division by zero, no signed overflow, every panic(\"BUG...\") unreachable, loop variants (termination of every lexical loop), and the nesting limit exact in pushObject/pushArray (10000 accepted, 10001 refused with errMaxDepth).",
+        "note": "Not decided: totality of code outside the functions listed in the evidence (reflection-driven arshal layer), termination of marshal recursion over cyclic pointer chains (finding F2, see DESIGN.md §5), readers that return (0, nil) forever.",
+        "ref": "DESIGN.md §3 C20",
     },
 }
 
